@@ -75,6 +75,11 @@ P = {
          "data returned together with a stream error is delivered before the error on the heartbeat receive loop, hbConn.Read and SCTPConn.Read, and heartbeats are filtered before delivery; writes pass the size limit and the flow-control test/wait; the client heartbeat period is below the server watchdog. "
          "Handshake outcomes, cross-delivery under concrete schedules and watchdog timing are not decided.",
          "4/C16"),
+ "C17": (True, "interprocedural taint analysis over go/ssa (context-insensitive, type-based field cells, function values followed through closures/fields/returns): sources = remote/registrant addresses and errors of client-connection operations, sinks = log calls that emit at the default level (set computed from pkg/station/log) incl. logger prefixes and serialised statistics records; guard dominance for the LOG_CLIENT_IP gate",
+         "Decides, over-approximately and for every error value and outcome: no value that may textually contain a client address (RemoteAddr, the registrant address, any error returned by an operation on an accepted / wrapped / dialled client connection, and anything derived from those through assignments, fields, containers, closures, repository calls and external calls) reaches a logger call that writes at the default level, a logger prefix, fmt.Print*, or a field of the tunnel-summary / expiry records; sanitisers are recognised structurally (a function whose returns are nil, package sentinels or errno values returns clean data) - the pre-repair sanitisers that returned unknown errors unchanged were reported and repaired. "
+         "The LOG_CLIENT_IP gate dominates the only use of the remote address in the flow description, and defaults to false; the registration digest and expiry record have no field fed from the registrant address. One deliberate Info-level line is a listed known finding. "
+         "Over-approximation means reports can be infeasible (each one on this tree was triaged by hand); under-approximation is limited to the stated assumptions (external calls do not write tainted data through pointer operands; reflection/unsafe not modelled; 12 dynamic calls not followed, none with a tainted operand - any such call with a tainted operand is reported as undecided).",
+         "4/C17"),
  "C18": (True, "finite predicate abstraction of the Lookup conditions, guard dominance (polarity, nil tests, sibling wiring), lockset guarded-by, must-pass pairing (go/ssa)",
          "Decides: each cache Lookup answers true iff the key is present and its age is below the expiration (all valuations); probe results go to the cache of their verdict and hits return their cache's verdict; the probe is reached only on a double miss; "
          "Init wires each cache only from its own duration/capacity setting and passes the capacity it tested; every call through an optional cache is dominated by a nil test of the same field; cache maps only under their mutex; LRU inserts are registered, evictions delete under the lock, LRU sized by the configured capacity. "
